@@ -282,6 +282,11 @@ fn component_alphabet(thorough: bool) -> Vec<Vec<Seg>> {
         vec![Seg::QVar("*".into())],
         vec![Seg::Var("\\a*".into())],
         vec![lit("*"), Seg::SQ("*".into())],
+        // a backslash that ends an unquoted expansion, with only empty quotes after it in the
+        // component: there is nothing to escape, it stays an ordinary character
+        vec![Seg::Var("a\\".into()), Seg::DQ(String::new())],
+        vec![Seg::Var("sub\\".into()), Seg::SQ(String::new())],
+        vec![Seg::Var("a\\".into()), Seg::QVar(String::new())],
     ];
     if thorough {
         v.extend([
